@@ -109,6 +109,19 @@ func v1Targets(r *rand.Rand, nRandom int) []*big.Int {
 			}
 		}
 	}
+	// values whose upper 64-bit word is a number the arithmetic treats specially (the siafund count the tax is rounded
+	// to, the tax rate's numerator and denominator), and targets whose first payout estimate target*1000/961 is one
+	for _, hw := range []int64{1, 2, 39, 961, 1000, 9999, 10000, 10001, 20000, 1 << 32} {
+		for _, lo := range []*big.Int{big.NewInt(0), big.NewInt(1), new(big.Int).Lsh(big.NewInt(1), 63), new(big.Int).Sub(new(big.Int).Lsh(big.NewInt(1), 64), big.NewInt(1)),
+			new(big.Int).SetUint64(r.Uint64()), new(big.Int).SetUint64(r.Uint64()), new(big.Int).SetUint64(r.Uint64())} {
+			v := new(big.Int).Lsh(big.NewInt(hw), 64)
+			v.Add(v, lo)
+			around(v, 1)
+			est := new(big.Int).Mul(v, big.NewInt(961))
+			est.Quo(est, big.NewInt(1000))
+			around(est, 1)
+		}
+	}
 	for i := 0; i < nRandom; i++ {
 		add(toBig(randCurrency(r, 117)))
 	}
